@@ -5,6 +5,8 @@ CONSTANTS MaxBatch      \* largest number of addresses one call names in this in
 MCBatches == {S \in SUBSET Addrs : S # {} /\ Cardinality(S) <= MaxBatch}
 \* singletons and the full set only (the cheap family of DESIGN D.5)
 MCBatchesEnds == {{a} : a \in Addrs} \cup {Addrs}
+\* ordered batches for the binding cap: every sequence without repetition of at most MaxBatch addresses
+MCOBatches == {q \in UNION {[1..n -> Addrs] : n \in 1..MaxBatch} : \A i, j \in 1..Len(q) : i # j => q[i] # q[j]}
 St == [book |-> book, rec |-> rec]
 EmitEdge == PrintT(<<"VFEDGE", ToJson([s |-> St, op |-> op', t |-> St'])>>)
 MCInit == Init /\ PrintT(<<"VFINIT", ToJson(St)>>)
